@@ -179,8 +179,19 @@ fn dump_adt<'tcx>(tcx: TyCtxt<'tcx>, did: DefId) -> J {
             ("fields", J::Arr(fields)),
         ]));
     }
+    // layout size of monomorphic ADTs (for allocation-size reasoning: elements * size)
+    let size = if tcx.generics_of(did).requires_monomorphization(tcx) {
+        J::Null
+    } else {
+        let ty = tcx.type_of(did).instantiate_identity().skip_norm_wip();
+        match tcx.layout_of(ty::TypingEnv::fully_monomorphized().as_query_input(ty)) {
+            Ok(l) => J::n(l.size.bytes() as i128),
+            Err(_) => J::Null,
+        }
+    };
     J::obj(vec![
         ("path", J::s(&tcx.def_path_str(did))),
+        ("size", size),
         ("kind", J::s(if def.is_enum() { "enum" } else if def.is_union() { "union" } else { "struct" })),
         ("pub", J::Bool(tcx.visibility(did).is_public())),
         ("variants", J::Arr(variants)),
